@@ -14,4 +14,4 @@ def run(tier, seed):
         {"prog": "page-aligned", "strategy": "pct", "runs": (80, 1000), "args": ["--snap", "3"]},
         {"prog": "page-delete", "strategy": "random", "runs": (100, 1500), "args": ["--snap", "3", "--spurious", "1", "--rate", "3"]},
     ]
-    return concfam.run_conc("C02", tier, seed, jobs, GUARDS, mc=("MiPage", ("MiPage_mc.cfg", "MiPage_mc_thorough.cfg")), guided_progs=("page", "page-main"))
+    return concfam.run_conc("C02", tier, seed, jobs, GUARDS, step_guards=concfam.STEP_GUARDS, mc=("MiPage", ("MiPage_mc.cfg", "MiPage_mc_thorough.cfg")), guided_progs=("page", "page-main"))
